@@ -1,0 +1,26 @@
+//go:build verif
+
+package routing
+
+import (
+	"lunar/engine/actions"
+	lunar_messages "lunar/engine/messages"
+
+	"github.com/negasus/haproxy-spoe-go/action"
+)
+
+// SPOEReqActionsForVerif and SPOERespActionsForVerif hand the handler's own fold of the actions of one
+// transaction (getSPOEReqActions / getSPOERespActions) to the verification harness. Built only with the verif tag.
+func SPOEReqActionsForVerif(
+	args lunar_messages.OnRequest,
+	lunarActions []actions.ReqLunarAction,
+) action.Actions {
+	return getSPOEReqActions(args, lunarActions)
+}
+
+func SPOERespActionsForVerif(
+	args lunar_messages.OnResponse,
+	lunarActions []actions.RespLunarAction,
+) action.Actions {
+	return getSPOERespActions(args, lunarActions)
+}
